@@ -360,7 +360,7 @@ def find_replace_clause(ctx):
             p = p._parent
             if isinstance(p, ast.For) and p is not loop:
                 fors.append(p)
-        ok = ok and len(fors) == 2 and "'patterns'" in u(fors[0].iter)
+        ok = ok and len(fors) == 2 and "'patterns'" in u(resolve_here(fors[0].iter))
     # every listed field of every row is treated: the loops over the fields and over their patterns are not left early (a `break`
     # on one field - a null value, say - would skip the fields listed after it)
     exits_ = [x for x in ast.walk(loop) if isinstance(x, (ast.Break, ast.Return)) or
